@@ -70,18 +70,26 @@ SlotFold(D, u, cs, st, eps, dv) ==
        IN  IF ~s.ok THEN [ok |-> FALSE, st |-> st] ELSE SlotFold(D, u, Tail(cs), s.st, eps, dv)
 
 \* atoms added / deleted and fluents written by the effects of call c that fire in st
-AddsDels(D, u, c, st, eps) ==
+\* plain = TRUE leaves the universally quantified effects out (what the converter's test sees, see
+\* "ConvertForallUnseen" below)
+PlainEffs(effs) == SelectSeq(FlattenEffs(effs), LAMBDA x : x.k # "forall")
+AddsDelsP(D, u, c, st, eps, plain) ==
   LET a == ActionNamed(D, c.act)
-      S == SimpleOf({g \in Groups(a.eff, EnvOfCall(a, c.args), u) : GroupTruth(g, st, u, eps, {}) = "T"})
+      S == SimpleOf({g \in Groups(IF plain THEN PlainEffs(a.eff) ELSE a.eff, EnvOfCall(a, c.args), u) : GroupTruth(g, st, u, eps, {}) = "T"})
   IN  [adds |-> AddsOf(S), dels |-> DelsOf(S), upds |-> {Target(x) : x \in UpdsOf(S)}]
 
 \* what the converter's interference test does see: an atom added by one member and deleted
 \* by another, a fluent written by two members
-NoEffectClash(D, u, cs, st, eps) ==
+AddsDels(D, u, c, st, eps) == AddsDelsP(D, u, c, st, eps, FALSE)
+NoEffectClashP(D, u, cs, st, eps, plain) ==
   \A i, j \in DOMAIN cs : i # j =>
-     LET x == AddsDels(D, u, cs[i], st, eps)
-         y == AddsDels(D, u, cs[j], st, eps)
+     LET x == AddsDelsP(D, u, cs[i], st, eps, plain)
+         y == AddsDelsP(D, u, cs[j], st, eps, plain)
      IN  x.adds \cap y.dels = {} /\ x.upds \cap y.upds = {}
+NoEffectClash(D, u, cs, st, eps) == NoEffectClashP(D, u, cs, st, eps, FALSE)
+\* some member has a universally quantified effect
+SomeForall(D, cs) == \E i \in DOMAIN cs : \E k \in DOMAIN FlattenEffs(ActionNamed(D, cs[i].act).eff) :
+                        FlattenEffs(ActionNamed(D, cs[i].act).eff)[k].k = "forall"
 
 RECURSIVE RunJoint(_, _, _, _, _, _)
 \* the joint plan executed step by step; each step must be applicable and commute.
@@ -99,6 +107,12 @@ RunJoint(D, u, joint, st, eps, dv) ==
        THEN RunJoint(D, u, Tail(joint), SeqRun(D, u, cs, st, eps, dv).st, eps, dv)
        ELSE IF allApp /\ "ConvertNonCommuting" \in dv /\ NoEffectClash(D, u, cs, st, eps) /\ SlotFold(D, u, cs, st, eps, dv).ok
        THEN RunJoint(D, u, Tail(joint), SlotFold(D, u, cs, st, eps, dv).st, eps, dv)
+       \* Known deviation "ConvertForallUnseen": the converter extracts the effects of a member from its
+       \* grounded unconditional and `when' effects only; what an action does under a forall is never
+       \* grounded there, so a clash that goes through a universally quantified effect is not seen.
+       ELSE IF allApp /\ "ConvertForallUnseen" \in dv /\ SomeForall(D, cs) /\ NoEffectClashP(D, u, cs, st, eps, TRUE)
+               /\ SlotFold(D, u, cs, st, eps, dv).ok
+       THEN RunJoint(D, u, Tail(joint), SlotFold(D, u, cs, st, eps, dv).st, eps, dv)
        ELSE [ok |-> FALSE, st |-> st]
 
 \* the state before plan[i] in the sequential run
@@ -111,14 +125,15 @@ SeqStateAt(D, u, plan, i, st, eps, dv) ==
 \* A greedy packer that ignores preconditions puts such a window into one step; from then on its
 \* state departs from the plan's, and a later action of the plan may be inapplicable in it (the
 \* library then raises).  Only plans with such a window may be refused.
-NonCommutingWindow(D, u, plan, agents, st, eps, dv) ==
+NonCommutingWindow(D, u, plan, agents, st, eps, dv, plain) ==
   \E i \in DOMAIN plan : \E j \in (i + 1)..Len(plan) :
      LET cs == SubSeq(plan, i, j)
          s == SeqStateAt(D, u, plan, i, st, eps, dv)
      IN  /\ j - i + 1 <= Len(agents)
          /\ \A a, b \in DOMAIN cs : a # b => ExecAgent(cs[a], agents) # ExecAgent(cs[b], agents)
          /\ \A a \in DOMAIN cs : AppIn(D, u, cs[a], s, eps, dv) = "T"
-         /\ NoEffectClash(D, u, cs, s, eps)
+         /\ NoEffectClashP(D, u, cs, s, eps, plain)
+         /\ (plain => SomeForall(D, cs))
          /\ ~Commute(D, u, cs, s, eps, dv)
 
 \* the calls of one agent, in order of occurrence
@@ -142,7 +157,7 @@ ValidConversion(D, u, seqPlan, joint, agents, st0, eps, dv) ==
   \* (under "ConvertNonCommuting" a plan with a non-commuting step need only be executable
   \*  in slot order: its final state is then order dependent and not compared)
   /\ LET rj == RunJoint(D, u, joint, st0, eps, dv)
-         strict == RunJoint(D, u, joint, st0, eps, dv \ {"ConvertNonCommuting"})
+         strict == RunJoint(D, u, joint, st0, eps, dv \ {"ConvertNonCommuting", "ConvertForallUnseen"})
          rs == SeqRun(D, u, seqPlan, st0, eps, dv)
      IN  rj.ok /\ (strict.ok => rj.st = rs.st)
 
